@@ -420,7 +420,7 @@ def disambiguate_matching(rain_intervals, jump_intervals):
     ]
     duration_differences = {
         (rain_start, jump_start): float(
-            (rain_stop - rain_start) - (jump_stop - jump_start)
+            (rain_stop - rain_start) - (jump_stop - jump_start - 1)
         )
         for (rain_start, rain_stop), (jump_start, jump_stop) in zip(
             rain_intervals, jump_intervals
